@@ -799,6 +799,10 @@ impl Context {
                         }
                     }
 
+                    // If the user input fails again below, the currency module has to be
+                    // rolled back as well: a failing input leaves the session unchanged.
+                    let interpreter_old = self.interpreter.clone();
+
                     let _ = self.interpret_with_settings(
                         &mut no_print_settings,
                         "use units::currencies",
@@ -812,7 +816,17 @@ impl Context {
                     self.load_currency_module_on_demand = false;
 
                     // Now we try to evaluate the user expression again:
-                    return self.interpret_with_settings(settings, code, code_source);
+                    let result = self.interpret_with_settings(settings, code, code_source);
+
+                    if result.is_err() {
+                        self.prefix_transformer = prefix_transformer_old;
+                        self.typechecker = typechecker_old;
+                        self.interpreter = interpreter_old;
+                        self.resolver.imported_modules = imported_modules_old;
+                        self.load_currency_module_on_demand = true;
+                    }
+
+                    return result;
                 }
             }
         }
